@@ -224,6 +224,9 @@ c16("c16_fifo_drop_remove", "fifo", "value destructor re-enters after remove", "
 c16("c16_fifo_drop_clear", "fifo", "value destructor re-enters when clear releases records", "nested = remove")
 c16("c16_fifo_drop_evictall", "fifo", "value destructor re-enters when evict_all releases records", "nested = remove")
 c16("c16_fifo_drop_replace", "fifo", "value destructor of a REPLACED resident entry re-enters", "outer insert over resident key 16", quick=True)
+c16("c16_fifo_drop_replace_younger", "fifo", "value destructor of a REPLACED resident entry re-enters (Replace branch of emplace; no listener installed)", "outer insert over the younger resident key 17", quick=True)
+c16("c16_lru_drop_replace_younger", "lru", "value destructor of a REPLACED resident entry re-enters (LRU)", "outer insert over the younger resident key 17")
+c16("c16_fifo_listener_replace_younger", "fifo", "listener re-enters on the Replace notification", "outer insert over the younger resident key 17")
 c16("c16_fifo_drop_insdisk_resident", "fifo", "value destructor of a resident entry displaced by a disk-only insert re-enters", "outer disk-only insert over resident key 16", quick=True)
 c16("c16_fifo_listener_insdisk_resident", "fifo", "listener re-enters when a disk-only insert displaces a resident entry", "outer disk-only insert over resident key 17")
 c16("c16_lru_drop_insdisk_resident", "lru", "value destructor of a displaced resident entry re-enters (LRU)", "outer disk-only insert over resident key 16")
